@@ -19,6 +19,7 @@ def main():
     pid = args[0].upper()
     tier = os.environ.get('VERIF_TIER', 'quick')
     replay = None
+    survey = None
     i = 1
     while i < len(args):
         if args[i] == '--tier':
@@ -26,6 +27,9 @@ def main():
             i += 2
         elif args[i] == '--replay':
             replay = args[i + 1]
+            i += 2
+        elif args[i] == '--survey':
+            survey = int(args[i + 1])
             i += 2
         else:
             print('unknown argument %r' % args[i])
@@ -66,6 +70,8 @@ def main():
     seed = int(os.environ.get('VERIF_SEED', '1'))
     from vlib import engine
     try:
+        if survey:
+            return engine.survey('checks.%s' % pid.lower(), tier, seed, survey)
         return engine.run('checks.%s' % pid.lower(), tier, seed, replay)
     except engine.HarnessError as e:
         print('HARNESS-ERROR %s' % (e,))
